@@ -104,6 +104,8 @@ class PyBytesIO:
         return self.pos
 
     def read(self, n=-1):
+        if not self.parts:
+            return b""
         data = self._flat()
         if n is None or n < 0:
             n = len(data)
